@@ -138,6 +138,12 @@ def owned_uses(ctx, rid, m, f, var, kind, consts, chain, depth=0, seen=None, own
                     ctx.ob(rid, inst, True, where, "argument of the copy", norm(call)[:100])
                     continue
                 targets = m.callee_funcs(f, call)
+                shift = 0
+                if not targets and "functools.partial" in ext_names(m, f, call) and call.args and node is not call.args[0]:
+                    # partial(g, ..., x): the caller's object becomes an argument of every later call of g
+                    for o_ in m.origins_of(f, call.args[0]):
+                        targets |= m._funcs_of_origin(o_)
+                    shift = 1
                 if not targets:
                     ur = sorted(fn_names) or [norm(call.func)]
                     ctx.ob(rid, inst, False, where, f"the caller's {kind} is handed to `{ur[0]}` (not a repo function with an empty effect on it)", norm(call)[:120])
@@ -148,7 +154,7 @@ def owned_uses(ctx, rid, m, f, var, kind, consts, chain, depth=0, seen=None, own
                     if isinstance(p, ast.keyword):
                         pname = p.arg
                     else:
-                        idx = call.args.index(node)
+                        idx = call.args.index(node) - shift
                         ps = tg.pos_params[1:] if (tg.cls is not None and not isinstance(call.func, ast.Name)) else tg.pos_params
                         pname = ps[idx] if idx < len(ps) else None
                     if pname is None:
